@@ -7,7 +7,7 @@ first-atom test (`rootOk` on the encoded words) accepts while the reference comp
 `maskEqPyEq_full_false` assembles them into the negation of the full-strength statement `Props.C09.MaskEqPyEqFull`.
 -/
 namespace ChythonModel.Findings.C09
-open ChythonModel.Model.Bits ChythonModel.Gen.Bits ChythonModel.Model.Query ChythonModel.Proofs.C09 ChythonModel.Props.C09
+open ChythonModel.Model.Bits ChythonModel.Gen.Bits ChythonModel.Model.Query ChythonModel.Proofs.C09 ChythonModel.Props.C09 ChythonModel.Model
 
 def maskTest (qmdl mdl : Nat) (q : QAtom) (a : MAtom) : Bool :=
   rootOk ⟨(qWords qmdl q none).v1, (qWords qmdl q none).v2, (qWords qmdl q none).v3, (qWords qmdl q none).v4, 0, 0, 0, 0, 0⟩
@@ -43,5 +43,49 @@ theorem maskEqPyEq_full_false : ¬ MaskEqPyEqFull := by
   unfold maskTest at w
   rw [this] at w
   exact absurd w.2.1 (by rw [w.2.2]; decide)
+
+/-! ## regression witnesses for the matcher's arrays
+
+A hub with six leaves (the skeleton of SF6) searched with a hub carrying five leaves (`FS(F)(F)(F)F`), every mask accepting every
+atom: 7 roots wait, then 1 + 5 + 4 + 4 + … candidates are pushed while earlier batches still wait. -/
+
+def starAtom (f t : Nat) : CAtom := ⟨1, 1, 1, 1, f, t, 0⟩
+/-- atom 0 is the hub (bond row 0…6), atoms 1…6 the leaves (one bond each, to the hub) -/
+def star6 : CMol :=
+  { atoms := [starAtom 0 6, starAtom 6 7, starAtom 7 8, starAtom 8 9, starAtom 9 10, starAtom 10 11, starAtom 11 12],
+    bonds := [⟨1, 1⟩, ⟨1, 2⟩, ⟨1, 3⟩, ⟨1, 4⟩, ⟨1, 5⟩, ⟨1, 6⟩, ⟨1, 0⟩, ⟨1, 0⟩, ⟨1, 0⟩, ⟨1, 0⟩, ⟨1, 0⟩, ⟨1, 0⟩] }
+def qStep (back : Nat) : CQAtom := ⟨1, 1, 1, 1, back, 0, 0, 0, 0⟩
+/-- leaf, hub (parent: step 0), four more leaves (parent: step 1) -/
+def starQuery : CQuery := { atoms := [qStep 0, qStep 0, qStep 1, qStep 1, qStep 1, qStep 1], bonds := [] }
+def allScope : List Bool := List.replicate 7 true
+
+/-- **the stack of `2 * molecule.atoms_count` entries (before repo commit e44243a) is overrun**: the guarded matcher with the old sizes
+    stops with an out-of-bounds write to `stack_index` (16 entries wait, 14 fit) — the heap overflow the `pyx2py` rendering reported
+    for `FS(F)(F)(F)F` on SF6. So `AllocOK` is false of the old sizes, and `allocation_sizes_suffice` is what the fix established. -/
+theorem old_stack_size_overflows :
+    getMappingA (allocOld 6 7) star6 starQuery allScope = .error (.oob .stackIndex 15 14) := by decide +kernel
+
+theorem old_sizes_not_ok : ¬ AllocOK (allocOld 6 7) 6 7 := by
+  intro h
+  have := h.stackIndex
+  simp [allocOld, allocOf] at this
+
+/-- with the sizes the code allocates now the same search runs through: 6·5·4·3·2 embeddings per choice of the first leaf -/
+theorem new_stack_size_suffices_on_witness :
+    (match getMappingA (allocOf 6 7) star6 starQuery allScope with
+     | .ok (r, st) => (r.length, decide (st.maxStack ≤ 42), decide (14 < st.maxStack))
+     | .error _ => (0, false, false)) = (720, true, true) := by decide +kernel
+
+/-- **a stale scratch entry changes a verdict**: a candidate with one recorded neighbour (atom 2) and a query closure onto the
+    image `path[0] = 3`; on a clean array the comparison loop reads `closures[3] = 0` and rejects, with a left-over entry at slot 3 it
+    accepts — the cleanliness that `scratch_array_is_clean` proves is what the verdicts depend on -/
+def hygM : CMol := { atoms := [⟨1, 1, 1, 1, 0, 2, 0⟩, ⟨1, 1, 1, 1, 0, 0, 0⟩, ⟨1, 1, 1, 1, 0, 0, 0⟩, ⟨1, 1, 1, 1, 0, 0, 0⟩],
+                     bonds := [⟨5, 1⟩, ⟨5, 2⟩] }
+def hygQ : CQuery := { atoms := [], bonds := [⟨7, 0⟩] }
+def hygQA : CQAtom := ⟨1, 1, 1, 1, 0, 1, 0, 1, 0⟩
+theorem stale_entry_changes_verdict :
+    (closureCS hygM hygQ hygQA ⟨1, 1, 1, 1, 0, 2, 0⟩ 1 [false, true, true, true] [3, 1] [0, 0, 0, 0]).map (·.1) = some false ∧
+    (closureCS hygM hygQ hygQA ⟨1, 1, 1, 1, 0, 2, 0⟩ 1 [false, true, true, true] [3, 1] [0, 0, 0, 5]).map (·.1) = some true := by
+  decide
 
 end ChythonModel.Findings.C09
